@@ -1,0 +1,59 @@
+//! Snapshot of everything `dfa::codegen::generate` is given, for the external verification
+//! harness. Only compiled with `--cfg lexgen_verif`.
+
+use crate::collections::Map;
+use crate::dfa::simplify::Trans;
+use crate::dfa::{verif_view, StateIdx, DFA};
+use crate::right_ctx::RightCtxDFAs;
+use crate::semantic_action_table::SemanticActionIdx;
+
+use std::fmt::Write;
+
+/// Text form of the final DFA, the rule set entry states and the right context DFAs.
+pub fn dump_string(
+    lexer_name: &str,
+    dfa: &DFA<Trans<SemanticActionIdx>, SemanticActionIdx>,
+    right_ctx_dfas: &RightCtxDFAs<StateIdx>,
+    rule_states: &Map<String, StateIdx>,
+) -> String {
+    let mut out = String::new();
+    writeln!(out, "lexgen-verif-dump 1").unwrap();
+    writeln!(out, "lexer {}", lexer_name).unwrap();
+
+    let mut entries: Vec<(&String, usize)> = rule_states
+        .iter()
+        .map(|(name, state)| (name, verif_view::state_idx(*state)))
+        .collect();
+    entries.sort();
+    for (name, state) in entries {
+        writeln!(out, "entry {} {}", name, state).unwrap();
+    }
+
+    dfa.verif_dump(&mut out, &|action: &SemanticActionIdx| action.as_usize());
+
+    for (idx, right_ctx_dfa) in right_ctx_dfas.iter() {
+        writeln!(out, "ctx {}", idx.as_usize()).unwrap();
+        right_ctx_dfa.verif_dump(&mut out, &|_: &()| 0);
+    }
+
+    writeln!(out, "end").unwrap();
+    out
+}
+
+/// Called by the macro right before code generation. Writes the snapshot to
+/// `$LEXGEN_VERIF_DUMP_DIR/<lexer name>.dump` when that variable is set, does nothing otherwise.
+pub fn dump_to_dir(
+    lexer_name: &str,
+    dfa: &DFA<Trans<SemanticActionIdx>, SemanticActionIdx>,
+    right_ctx_dfas: &RightCtxDFAs<StateIdx>,
+    rule_states: &Map<String, StateIdx>,
+) {
+    let dir = match std::env::var_os("LEXGEN_VERIF_DUMP_DIR") {
+        Some(dir) => std::path::PathBuf::from(dir),
+        None => return,
+    };
+    let text = dump_string(lexer_name, dfa, right_ctx_dfas, rule_states);
+    let path = dir.join(format!("{}.dump", lexer_name));
+    std::fs::write(&path, text)
+        .unwrap_or_else(|err| panic!("lexgen_verif: cannot write {:?}: {}", path, err));
+}
